@@ -29,8 +29,8 @@ pub struct C05Case {
     pub forget_offset_ms: Option<u32>,
 }
 
-fn no_trouble(_sim: &Sim, info: &StepInfo) -> Result<(), Fail> {
-    panic_or_err(info, "C05", true)
+fn no_trouble(sim: &Sim, info: &StepInfo) -> Result<(), Fail> {
+    panic_or_err(sim, info, "C05", true)
 }
 
 fn side_a(c: &C05Case) -> BTreeSet<usize> {
@@ -295,7 +295,7 @@ pub fn run(ctx: &Ctx, report: &mut Report) -> EvidenceMeta {
     ctx.run_part(&PartitionPart, report);
     EvidenceMeta {
         level: "fault_enumeration",
-        rule: "simulated clusters of 3..=10 members with renewable identities, notify_down_members and periodic_announce_to_down_members (1..3 members every 3..8 probe periods) enabled; a generated two-sided split (side sizes 1..n/2, members chosen at random) or the one-way variant (only traffic towards one member is cut) is held until both sides (resp. everyone else) list the other side Down - verified on the instances, otherwise the case is discarded and counted - then healed after a generated delay; in a quarter of the cases the same partition is applied and healed a second time (remove_down_after stays far longer than the run, as the configuration documentation demands: a Down record forgotten before the heal cannot be announced to); latencies, seeds, fan-out, max_transmissions 3..10 and periodic tasks are generated. Oracle: within (2n+6) announce-to-down periods after healing every live instance's iter_members() equals exactly the current identities of all others; no instance ever notifies Defunct; every Rejoin(new) differs from and wins against the previous identity, the identity held equals the last Rejoin, and an Active follows the last Rejoin. Non-trivial: both sides renewed at least one identity and a datagram addressed to a superseded identity was delivered after healing (or the asymmetric variant with a renewal); distinct = (n, split shape, variant, renewals per side, stale delivery, announce-to-down parameters)."
+        rule: "simulated clusters of 3..=10 members with renewable identities, notify_down_members and periodic_announce_to_down_members (1..3 members every 3..8 probe periods) enabled; a generated two-sided split (side sizes 1..n/2, members chosen at random) or the one-way variant (only traffic towards one member is cut) is held until both sides (resp. everyone else) list the other side Down - verified on the instances, otherwise the case is discarded and counted - then healed after a generated delay; in a quarter of the cases the same partition is applied and healed a second time; remove_down_after is either far longer than the run or - in half of the two-cycle cases - finite but longer than the longest cycle this check admits (hold limit + heal delay + re-convergence bound + settling), with the second partition timed so that the first cycle's forget-timers fire 0..30 s into it, while the second cycle's Down records are what healing depends on (a Down record forgotten before the heal cannot be announced to, which is why shorter values are outside the domain); latencies, seeds, fan-out, max_transmissions 3..10 and periodic tasks are generated. Oracle: within (2n+6) announce-to-down periods after healing every live instance's iter_members() equals exactly the current identities of all others; no instance ever notifies Defunct; every Rejoin(new) differs from and wins against the previous identity, the identity held equals the last Rejoin, and an Active follows the last Rejoin. Non-trivial: both sides renewed at least one identity and a datagram addressed to a superseded identity was delivered after healing (or the asymmetric variant with a renewal); distinct = (n, split shape, variant, renewals per side, stale delivery, announce-to-down parameters)."
             .into(),
         assumptions: vec![
             "outside the partition the transport and timers are fault-free".into(),
